@@ -66,6 +66,7 @@ class Oracle(object):
             pools[op[1]] = op[2]
         obs = run.step(op)
         ev, st = run.last_events, run.last_state
+        self.timed_out = bool(sc.get('timeout')) and env.clock.now > 1005.0    # client timeout elapsed: a walk may stop early
         sends = [e for e in ev if e[0] == 1]
         consults = [e for e in ev if e[0] == 3]
         new_tasks = st['queue'][len(pre_queue) - (1 if op[0] == 'run' and task_exp is not None else 0):]
@@ -279,7 +280,7 @@ class Oracle(object):
             return
         if self.which == 'C16' and t['kind'] == 'retry' and t['reuse'] and pools[t['host']] == HEALTHY:
             self.flag('retry.not_sent', 'RETRY decided for host %d (healthy) but nothing was sent (%r)' % (t['host'], op), 'C16_obeys')
-        if self.which == 'C16' and t['kind'] == 'retry' and not t['reuse'] and self.nodup:
+        if self.which == 'C16' and t['kind'] == 'retry' and not t['reuse'] and self.nodup and not self.timed_out:
             if any(pools[x] == HEALTHY for x in self.plan[self.cursor:]):
                 self.flag('next_host.not_sent', 'RETRY_NEXT_HOST decided, usable plan hosts remain, nothing sent (%r)' % (op,), 'C16_obeys')
         if self.which == 'C19' and t['kind'] == 'reprepare' and pools[t['host']] == HEALTHY:
